@@ -168,7 +168,7 @@ Lemma apply_local_names_customs ids l : forall m m', apply_local_names m ids l =
 Proof.
   induction l as [|[fi names] l IH]; intros m m'; cbn [apply_local_names].
   - intros [= <-]. reflexivity.
-  - destruct (nth_N (ii_funcs ids) fi); [|discriminate]. cbv zeta. intros H. apply IH in H. rewrite H. reflexivity.
+  - destruct (nth_N (ii_funcs ids) fi); [|apply IH]. cbv zeta. intros H. apply IH in H. rewrite H. reflexivity.
 Qed.
 
 Lemma parse_names_customs m ids n : m_customs (parse_names m ids n) = m_customs m.
